@@ -5,7 +5,7 @@ import dataclasses
 import types
 from typing import Any, Iterable, Union, get_type_hints, TYPE_CHECKING
 from dataclasses import dataclass, field
-from sigma.conditions import ConditionOR
+from sigma.conditions import ConditionAND, ConditionOR
 from sigma.correlations import SigmaCorrelationCondition, SigmaCorrelationRule
 from sigma.rule import SigmaRule, SigmaDetection, SigmaDetectionItem
 from sigma.exceptions import (
@@ -384,7 +384,12 @@ class FieldMappingTransformationBase(DetectionItemTransformation):
                         replacement.disable_conversion_to_plain()
                     else:
                         replacement.original_value = detection_item.original_value
-                result = SigmaDetection(replacements, item_linking=ConditionOR)
+                # The item holds if it holds for the field under one of its new names; a negated
+                # item (each copy carries the negation) if it holds under none of them.
+                result = SigmaDetection(
+                    replacements,
+                    item_linking=ConditionAND if detection_item.negated else ConditionOR,
+                )
         if field_match or fieldref_match:  # field name was changed or field reference was mapped
             if self._pipeline is not None and mapping is not None:
                 self._pipeline.field_mappings.add_mapping(field, mapping)
